@@ -25,6 +25,7 @@ package schemas
 
 import (
 	"encoding/json"
+	"errors"
 	"fmt"
 	"reflect"
 
@@ -70,6 +71,19 @@ func (s *Schema) UnmarshalJSON(data []byte) error {
 	}
 
 	*s = Schema(unmarshSchema)
+
+	// The root is decoded field by field, not through Type.UnmarshalJSON: check it here.
+	if s.ObjectAsType != nil {
+		if err := (*Type)(s.ObjectAsType).checkSubschemas(); err != nil {
+			return fmt.Errorf("failed to unmarshal schema: %w", err)
+		}
+	}
+
+	for name, def := range s.Definitions {
+		if def == nil {
+			return fmt.Errorf("failed to unmarshal schema: definitions %q: %w", name, ErrNullSubschema)
+		}
+	}
 
 	return nil
 }
@@ -262,6 +276,40 @@ func (value *Type) UnmarshalJSON(raw []byte) error {
 	}
 
 	*value = Type(obj)
+
+	return value.checkSubschemas()
+}
+
+// ErrNullSubschema is reported for a JSON null where a schema is expected.
+var ErrNullSubschema = errors.New("a schema must be an object or a boolean, not null")
+
+// checkSubschemas rejects null members of the keywords that hold schemas by name or by position:
+// encoding/json turns them into nil pointers, which nothing downstream expects.
+func (value *Type) checkSubschemas() error {
+	for keyword, members := range map[string]map[string]*Type{
+		"properties":        value.Properties,
+		"patternProperties": value.PatternProperties,
+		"$defs":             value.Definitions,
+		"dependentSchemas":  value.DependentSchemas,
+	} {
+		for name, member := range members {
+			if member == nil {
+				return fmt.Errorf("%s %q: %w", keyword, name, ErrNullSubschema)
+			}
+		}
+	}
+
+	for keyword, members := range map[string][]*Type{
+		"allOf": value.AllOf,
+		"anyOf": value.AnyOf,
+		"oneOf": value.OneOf,
+	} {
+		for i, member := range members {
+			if member == nil {
+				return fmt.Errorf("%s[%d]: %w", keyword, i, ErrNullSubschema)
+			}
+		}
+	}
 
 	return nil
 }
